@@ -356,7 +356,13 @@ def _refuted(contract, shape, ctx, p, name, strength, model, secs, backend, clau
     r["solver_output"] = str(model)[:1500] if model is not None else f"{backend}: sat (no model)"
     if model is not None:
         try:
-            rp = contract.replay(shape, ctx, model, clause.name)
+            from .bounded import Budget, time_budget
+            try:
+                with time_budget(120):
+                    rp = contract.replay(shape, ctx, model, clause.name)
+            except Budget:
+                # e.g. the multiplier on real sympy Symbols: the native run does not finish; the model is still reported
+                rp = dict(error="native replay exceeded 120 s (sympy blow-up); the counter-model is in solver_output", disagrees=None)
         except Exception:  # noqa
             rp = dict(error=traceback.format_exc()[-1500:])
         if rp:
